@@ -119,6 +119,7 @@ func Gen(t *rapid.T, o GenOptions) Case {
 	c.Pairing = rapid.SampledFrom(o.Pairings).Draw(t, "pairing")
 	io := o.Img
 	io.ExtHost = HostExt
+	io.NoMediaType = true // OCI manifests without the optional mediaType field (the type then only comes from headers / the listing descriptor)
 	c.Graph = imggen.Gen(t, io)
 	c.SrcFeat = genFeat(t, "src")
 	c.TgtFeat = genFeat(t, "tgt")
